@@ -143,6 +143,10 @@ NRepExpected == Cardinality(RepExpected) + sc.extraRep
 EnabledT == sc.optT /\ NRepExpected > 20
 EnabledM == sc.isMargin /\ sc.optM /\ NRepExpected > 20
 
+\* the units the outlier detection models are fitted on (their read set): the reporting expected units that no hard
+\* rule (blocklist, zero baseline, strange turnout factor) has already set aside  (repair of finding F16)
+OutlierCandidates == {i \in RepExpected : ~Blocklisted(i) /\ ~Un(i).zeroBase /\ ~Un(i).tfStrange}
+
 \* concat order in _get_non_modeled_units, then drop_duplicates keeps the first
 Reason(i) ==
   CASE Blocklisted(i)                          -> "non-modeled: blocklisted"
